@@ -123,6 +123,18 @@ CLAIMED["C14"] = ("proof",
     "'the generated package compiles' is established by compiling, per schema.",
     "machine-checked proof in Coq + parser/generator correspondence incl. compile-and-reflect")
 
+CLAIMED["C08"] = ("proof",
+    "Gallina model of mode.New/Detect/WriteMsg/ReadMsg (Abridged, Intermediate) and transport.ReadMsg written against an abstract exact-count read, instantiated over a LIST OF "
+    "CHUNKS (io.ReadFull semantics) and over the flat stream; theorems: for every mode, every list of carriable messages and EVERY chunking of announce ++ frames the reader "
+    "detects the mode and returns exactly the messages then end-of-stream; the result of reading any byte stream is independent of its segmentation (parametric simulation); "
+    "byte-exact headers incl. the 126/127-word boundary; a four-byte frame is surfaced as the signed 32-bit code it carries; end of stream is EOF, never a message. Tied to the "
+    "code over a real loopback TCP connection owned by transport.NewTCP, the harness feeding the stream chunk by chunk behind a kernel-level barrier (all compositions of streams "
+    "up to 14 bytes, 1-byte-at-a-time, random cuts, messages up to 2^20 bytes).",
+    "DESIGN.md section 8 (C08)",
+    "Trusted: Coq kernel; extraction; harness incl. its ioctl barrier (self-validated each run); io.ReadFull / net.TCPConn.Read semantics as modelled; in-order loopback delivery. "
+    "Mid-frame close is outside the property.",
+    "machine-checked proof in Coq + correspondence over real loopback TCP under chosen segmentations")
+
 PENDING_REASON = "check not built yet in this round (machinery under construction; see DESIGN.md section 9 order of work)"
 
 
